@@ -241,6 +241,18 @@ fn exercise_packed(
     }
 }
 
+/// A contiguous NFA or DFA (by `cfg.imp`) converted from a noncontiguous NFA
+/// built with `cfg`'s options, by a builder that was given other options.
+fn converted(cfg: &Cfg, pats: &[Vec<u8>]) -> Result<S, String> {
+    let nn = Cfg { imp: Imp::LowNnfa, ..*cfg }.nnfa_builder().build(pats).map_err(|e| e.to_string())?;
+    let other_kind = if cfg.kind == Kind::Standard { Kind::LeftmostFirst } else { Kind::Standard };
+    let odd = Cfg { kind: other_kind, ci: !cfg.ci, pre: !cfg.pre, ..*cfg };
+    match cfg.imp {
+        Imp::LowCnfa => odd.cnfa_builder().build_from_noncontiguous(&nn).map(S::C).map_err(|e| e.to_string()),
+        _ => odd.dfa_builder().build_from_noncontiguous(&nn).map(S::D).map_err(|e| e.to_string()),
+    }
+}
+
 /// All top-level / automaton calls on one placed haystack.
 fn exercise_ac(
     rep: &mut Report,
@@ -499,6 +511,25 @@ pub fn run(ctx: &Ctx, rep: &mut Report) {
                     continue;
                 }
             };
+            // ... and (every other list) the same collection as a contiguous NFA
+            // resp. DFA CONVERTED from a separately built noncontiguous NFA by a
+            // builder whose own options differ (the documentation: they are
+            // ignored by the conversion)
+            let conv: Option<(Cfg, S)> = if !miri && li % 2 == 0 {
+                let c = Cfg { imp: if li % 4 == 0 { Imp::LowCnfa } else { Imp::LowDfa }, ..cfg };
+                match guard(|| converted(&c, &pats)) {
+                    Ok(Ok(s)) => {
+                        rep.tally("converted_automata_built");
+                        Some((c, s))
+                    }
+                    _ => {
+                        rep.violation("panic_or_error:build", "build_from_noncontiguous failed".into(), ac_case_json(&pats, &c, b"", (0, 0), "build;converted"));
+                        None
+                    }
+                }
+            } else {
+                None
+            };
             let nh = if miri { 3 } else { ctx.tier.pick(3, 16, 30) };
             for k in 0..nh {
                 let len = if miri { *rng.pick(&[0usize, 1, 7, 16, 33, 40]) } else if k % 5 == 0 { rng.range(300, 4000) } else { rng.below(301) };
@@ -507,6 +538,13 @@ pub fn run(ctx: &Ctx, rep: &mut Report) {
                 with_placements(stage, &mut gb, &hay, &mut |h, placement| {
                     for &sp in spans.iter().take(if miri { 1 } else { 4 }) {
                         exercise_ac(rep, &pats, &cfg, &s, &variant, h, sp, placement);
+                    }
+                    if let Some((c, s)) = &conv {
+                        if k % 2 == 0 {
+                            for &sp in spans.iter().take(2) {
+                                exercise_ac(rep, &pats, c, s, &variant, h, sp, &format!("{};converted", placement));
+                            }
+                        }
                     }
                 });
             }
@@ -657,7 +695,8 @@ pub fn replay(case: &J, rep: &mut Report) -> Result<(), String> {
         }
         "ac" => {
             let cfg = Cfg::from_json(case.get("cfg").ok_or("cfg")?)?;
-            let s = cfg.build(&pats)?;
+            let was_converted = case.get("placement").and_then(|p| p.as_str()).map_or(false, |p| p.contains("converted"));
+            let s = if was_converted { converted(&cfg, &pats)? } else { cfg.build(&pats)? };
             let variant = cfg.prefilter_variant(&pats);
             with_placements("guard", &mut gb, &hay, &mut |h, pl| {
                 exercise_ac(rep, &pats, &cfg, &s, &variant, h, span, pl)
